@@ -231,7 +231,7 @@ type c16Harness struct {
 	faults map[int]int // index -> 0: bad exit status only; d>=1: Felix's write fails d-1 restore lines after the process died
 
 	nFaults, nNatural, nSwaps, nCmds int
-	leakShape, delayed               bool
+	leakShape, delayed, flagShape    bool
 }
 
 func (h *c16Harness) timeNow() time.Time {
@@ -296,6 +296,9 @@ func (d *c16Destroy) CombinedOutput() ([]byte, error) {
 	if inj {
 		h.dp.FailNextDestroy = true
 		h.nFaults++
+		if !strings.HasPrefix(d.name, "cali4t") {
+			h.flagShape = true // a non-temporary set gets DeleteFailed; if it is desired again later its old incarnation is swapped out
+		}
 	}
 	out, err := d.inner.CombinedOutput()
 	h.dp.FailNextDestroy = false
@@ -587,8 +590,8 @@ func (r *c16run) applyUntilQuiet(budget int, faults map[int]int) {
 	}
 }
 
-func (r *c16run) coq(fx bool) string {
-	return fmt.Sprintf("mkCase %v %s [%s]", fx, r.k0, strings.Join(r.ops, ";\n "))
+func (r *c16run) coq(fx, fx2 bool) string {
+	return fmt.Sprintf("mkCase %v %v %s [%s]", fx, fx2, r.k0, strings.Join(r.ops, ";\n "))
 }
 
 // ------------------------------------------------------------------ does this tree have the repair?
@@ -601,6 +604,23 @@ func c16probe() bool {
 	r.applyUntilQuiet(0, nil) // start-of-day resync done
 	r.addOrReplace(0, c16meta{0, 200, 0, 0}, []int{1, 2})
 	r.applyUntilQuiet(0, map[int]int{3: 1}) // create, add, add, swap
+	for name := range r.h.dp.IPSetMembers {
+		if strings.HasPrefix(name, "cali4t") {
+			return false
+		}
+	}
+	return true
+}
+
+// Second repair (fixes/C16-temp-set-flags.patch): a set whose destroy was refused (DeleteFailed) becomes desired again
+// with other parameters; without the repair the temporary set that receives its old contents inherits DeleteFailed
+// and is skipped by the deletions until the next resync.
+func c16probe2() bool {
+	k0 := map[string]c16kset{c16main(0): {meta: c16meta{0, 100, 0, 0}, members: []string{"10.0.0.1"}}}
+	r := c16new(k0)
+	r.applyUntilQuiet(0, map[int]int{0: 0}) // the destroy of cali40s0 is refused
+	r.addOrReplace(0, c16meta{0, 200, 0, 0}, []int{1})
+	r.applyUntilQuiet(0, nil)
 	for name := range r.h.dp.IPSetMembers {
 		if strings.HasPrefix(name, "cali4t") {
 			return false
@@ -811,6 +831,9 @@ func c16genCase(g *c16rng, stream string) (*c16run, []string) {
 	if h.delayed {
 		tags = append(tags, "faults:delayed-write-error")
 	}
+	if h.flagShape {
+		tags = append(tags, "delete-failed-shape")
+	}
 	return r, tags
 }
 
@@ -854,6 +877,7 @@ func TestVerifC16(t *testing.T) {
 		}
 	}
 	fx := c16probe()
+	fx2 := c16probe2()
 	f, err := os.Create(out)
 	if err != nil {
 		t.Fatal(err)
@@ -870,8 +894,13 @@ func TestVerifC16(t *testing.T) {
 		} else {
 			tags = append(tags, "tree:unrepaired")
 		}
+		if fx2 {
+			tags = append(tags, "tree:fix2")
+		} else {
+			tags = append(tags, "tree:nofix2")
+		}
 		nt := r.h.nFaults+r.h.nNatural > 0 || r.h.nSwaps > 0
-		_ = enc.Encode(c16line{Coq: r.coq(fx), NT: nt, Key: r.k0 + strings.Join(r.ops, "|"),
+		_ = enc.Encode(c16line{Coq: r.coq(fx, fx2), NT: nt, Key: r.k0 + strings.Join(r.ops, "|"),
 			Sample: map[string]any{"k0": r.k0, "ops": r.txt}, Tags: tags})
 	}
 }
